@@ -4,6 +4,8 @@
 -/
 import H5.Wire
 import H5.Model.OptionalTags
+import H5.Model.Alphabetical
+import H5.Model.Whitespace
 open H5 H5.Wire
 
 def otok : R (Option Tok) := do
@@ -28,6 +30,14 @@ def handle (ws : List String) : String :=
   | "fn:isOptionalEnd" :: rest =>
     match run (do let n ← str; let x ← otok; pure (n, x)) rest with
     | some (n, x) => encExcept encBool (H5.Gen.isOptionalEnd n x)
+    | none => "bad-request"
+  | "alpha" :: rest =>
+    match run (list tok) rest with
+    | some ts => "ok " ++ encToks (H5.Model.Alphabetical.filter ts)
+    | none => "bad-request"
+  | "ws" :: rest =>
+    match run (list tok) rest with
+    | some ts => "ok " ++ encToks (H5.Model.Whitespace.filter ts)
     | none => "bad-request"
   | _ => "bad-op"
 
